@@ -149,6 +149,31 @@ def _copy_mon(mon):
     return None if mon is None else {k: dict(v) for k, v in mon.items()}
 
 
+class _NewRecords(object):
+    """the records a constructor-level monitor gained during one call (such monitors live as long as the solver and accumulate over its computations)"""
+
+    def __init__(self, out, start):
+        self._it = list(out._it)[start:]
+        self._time = list(out._time)[start:]
+        self._value = list(out._value)[start:]
+
+
+def _ctor_len(ctor):
+    return {k: (len(v["output"]._it) if "output" in v else 0) for k, v in (ctor or {}).items()}
+
+
+def _judge_ctor(P, md, ctor, before, states, it0, what):
+    if not ctor:
+        return
+    view = {}
+    for k, v in ctor.items():
+        d = {kk: vv for kk, vv in v.items() if kk != "output"}
+        if "output" in v:
+            d["output"] = _NewRecords(v["output"], before.get(k, 0))
+        view[k] = d
+    _judge_monitors(P, md, view, states, it0, what + " [monitor given to the solver's constructor: records added by this call]")
+
+
 def _judge_monitors(P, md, mon, states, it0, what):
     """per-call monitor dictionaries: exactly the iterations it0..it0+N that are multiples of the frequency, with the time/value of the state at that iteration"""
     if mon is None:
@@ -239,6 +264,7 @@ def check(case):
             what = "call %d: restart(M=%d) after %d iterations from field %d (%s, cfl=%g)" % (ci, M, Ntot, i, integ, cfl)
             kw = {} if mon is None else {"monitors": mon}
             kw.update(dkw)
+            cbefore = _ctor_len(ctor)
             res = S.restart(flast, cfl, stop=stopd(M), **kw)
             require(len(res) == 1, "restart-returns-final", "%s returns %d fields" % (what, len(res)))
             ref = states[Ntot + M]
@@ -246,6 +272,7 @@ def check(case):
             require(S.totnit() == Ntot + M and S.nit() == M, "restart-iteration-count", "%s: totnit() = %d, nit() = %d, expected %d and %d" % (what, S.totnit(), S.nit(), Ntot + M, M))
             require(res[0].it == Ntot + M, "returned-it", "%s: the returned field carries it = %r, expected the cumulative count %d" % (what, res[0].it, Ntot + M))
             _judge_monitors(P, md, mon, states[Ntot:Ntot + M + 1], Ntot, what)
+            _judge_ctor(P, md, ctor, cbefore, states[Ntot:Ntot + M + 1], Ntot, what)
             last = (i, Ntot + M, res[0])
             labels.append("restart")
             ncalls += 1
@@ -263,6 +290,7 @@ def check(case):
         kw.update(dkw)
         if call["saves"] is None:
             what = "call %d: solve(field %d, maxit=%d%s) (%s, cfl=%g)" % (ci, i, N, ", monitors" if mon else "", integ, cfl)
+            cbefore = _ctor_len(ctor)
             res = S.solve(f0, cfl, stop=stopd(N), **kw)
             require(len(res) == 1, "solve-returns-final", "%s returns %d fields" % (what, len(res)))
             ref = states[N]
@@ -271,6 +299,7 @@ def check(case):
             require(S.nit() == N and S.totnit() == N, "solve-iteration-count", "%s: nit() = %d, totnit() = %d" % (what, S.nit(), S.totnit()))
             require(res[0].it == N, "returned-it", "%s: the returned field carries it = %r, expected %d" % (what, res[0].it, N))
             _judge_monitors(P, md, mon, states[:N + 1], 0, what)
+            _judge_ctor(P, md, ctor, cbefore, states[:N + 1], 0, what)
             if call["repeat"]:
                 res2 = S.solve(f0, cfl, stop=stopd(N), **dkw)
                 require(_eq(res2[0], res[0], None), "repeat-bit-identical", "%s repeated on the same solver object differs by %.3g" % (what, _diff(res2[0], res[0])))
